@@ -7,7 +7,7 @@
            fl:<err>:<wid|->:<hex>  by:<hex>  bo:0|1  er:<err>  u
    dseq # <get> <choice> <free> @ op ...                  decoder sessions
         get = pool | newdec:<hex> | newreader:<hex> ; ops D R S0 S1 RB<hex> RR<hex> BF O<l.r.m.s.li> G Q P
-        -> d:<value>:<err>  er:<err>  bo:  op:<l.r.m.s.li>  u
+        -> d:<value>:<err>:<c0|c1>  d:HANG  er:<err>  bo:  op:<l.r.m.s.li>  u
    own <simple> <fast 0|1> <dty> <wtok>                   ownership of a decoded value -> owned|view
    api <name> <fast>                                      -> view|owned
    reg <locked> t:<f,f> ... ; v... ; <sched items i*  ixN>  registry LTS
@@ -93,7 +93,19 @@ let choice_of (s : string) = let k = int_of_string s in if k < 0 then None else 
 let prefixed p s = String.length s >= String.length p && String.sub s 0 (String.length p) = p
 let after p s = String.sub s (String.length p) (String.length s - String.length p)
 
+(* "eseq:abcd" / "dseq:abcd": the repairs present in the tree under test (one 0/1 flag each):
+   a ResetBuffer resets off, b FreeEncoder detaches Writer, c Decoder.Reset always resets the
+   reference list, d ResetReader drops a caller's slice *)
+let variant_of (head : string) : Pool.variant =
+  match String.index_opt head ':' with
+  | None -> Pool.as_found
+  | Some i ->
+    let f = String.sub head (i + 1) (String.length head - i - 1) in
+    let b k = String.length f > k && f.[k] = '1' in
+    { Pool.v_resetbuffer_off = b 0; v_free_writer = b 1; v_reset_refer_always = b 2; v_resetreader_drops = b 3 }
+
 let run_eseq (toks : string list) : string =
+  let vr = variant_of (Stdlib.List.hd toks) in
   let sessions = Stdlib.List.tl (split_on "#" toks) in
   let pool = ref [] in
   let outs = Stdlib.List.map (fun sess ->
@@ -106,8 +118,8 @@ let run_eseq (toks : string list) : string =
         else Pool.c_new_encoder (writer_of (after "new:" get)) in
       let st = ref e0 in
       let obs = Stdlib.List.map (fun op ->
-        let (s', o) = Pool.c_enc_step !st (parse_eop op) in st := s'; show_eobs o) ops in
-      if free = "1" then pool := Pool.c_free_enc !st :: !pool;
+        let (s', o) = Pool.cv_enc_step vr !st (parse_eop op) in st := s'; show_eobs o) ops in
+      if free = "1" then pool := Pool.cv_free_enc vr !st :: !pool;
       String.concat " " obs
     | _ -> failwith "eseq: bad session header") sessions in
   String.concat " # " outs
@@ -143,7 +155,8 @@ let parse_dop (op : string) =
   | _ -> failwith ("dop: " ^ op)
 
 let show_dobs = function
-  | Pool.ODecoded (v, e) -> "d:" ^ show_dval v ^ ":" ^ eerr e
+  | Pool.ODecoded (v, e, c) -> "d:" ^ show_dval v ^ ":" ^ eerr e ^ (if c then ":c1" else ":c0")
+  | Pool.ODHang -> "d:HANG"
   | Pool.ODErr e -> "er:" ^ eerr e
   | Pool.ODBool b -> if b then "bo:1" else "bo:0"
   | Pool.ODOpts o ->
@@ -152,6 +165,7 @@ let show_dobs = function
   | Pool.ODUnit -> "u"
 
 let run_dseq (toks : string list) : string =
+  let vr = variant_of (Stdlib.List.hd toks) in
   let sessions = Stdlib.List.tl (split_on "#" toks) in
   let pool = ref [] in
   let outs = Stdlib.List.map (fun sess ->
@@ -162,16 +176,13 @@ let run_dseq (toks : string list) : string =
           let (d, p) = Pool.dget [] () !pool (choice_of choice) in
           pool := p; d end
         else if prefixed "newdec:" get then Pool.c_new_decoder (bytes_of_hex (after "newdec:" get))
-        else begin
-          (* NewDecoderFromReader: like NewDecoder, the input arriving through a reader *)
-          let d = Pool.c_new_decoder (bytes_of_hex (after "newreader:" get)) in
-          { d with Pool.d_from_reader = true } end in
+        else Pool.c_new_decoder_from_reader (bytes_of_hex (after "newreader:" get)) in
       let st = ref d0 in
       let obs = Stdlib.List.map (fun op ->
         match op with
-        | [o] -> let (s', ob) = Pool.c_dec_step !st (parse_dop o) in st := s'; show_dobs ob
+        | [o] -> let (s', ob) = Pool.cv_dec_step vr !st (parse_dop o) in st := s'; show_dobs ob
         | _ -> failwith "dseq: op") ops in
-      if free = "1" then pool := Pool.c_free_dec !st :: !pool;
+      if free = "1" then pool := Pool.cv_free_dec vr !st :: !pool;
       String.concat " " obs
     | _ -> failwith "dseq: bad session header") sessions in
   String.concat " # " outs
@@ -303,8 +314,8 @@ let run_reg (toks : string list) : string =
 
 let run line =
   match split_ws line with
-  | "eseq" :: r -> run_eseq ("eseq" :: r)
-  | "dseq" :: r -> run_dseq ("dseq" :: r)
+  | h :: r when prefixed "eseq" h -> run_eseq (h :: r)
+  | h :: r when prefixed "dseq" h -> run_dseq (h :: r)
   | "own" :: r -> run_own r
   | "api" :: r -> run_api r
   | "reg" :: r -> run_reg r
